@@ -33,7 +33,7 @@ PROPS = {
               "UNSET filter and by_alias/exclude_unset dump in every base client; input aliases + populate_by_name; template locals cannot capture arguments; wrapper table of operation variable types (list / non-null / named, custom scalar through lists).",
               "that the JSON coerces back to the caller's values for all type shapes; pydantic's handling of enums/nested models"),
     "C04": _p("Clause decided: no reserved type redefinition; written files = reported files; collision check covers written names and precedes writes; "
-              "used names are imported; __all__ = re-exports; model_rebuild for forward refs; raise discipline; enum member escaping; per-kind type selections keep everything but `__` names; module names / imports / fragment tables threaded to every generator.",
+              "used names are imported; __all__ = re-exports; model_rebuild for forward refs; raise discipline; enum member escaping; per-kind type selections keep everything but `__` names; module names / imports / fragment tables threaded to every generator; typing / pydantic names any reachable helper can emit are imported by the module; defaulting idioms keep the value they default.",
               "importability of every emitted package (requires running the generator and Python); autoflake never pruning a needed import"),
     "C05": _p("Clause decided: nullable-flag transfer across List/NonNull in the result mapper; Optional iff nullable or @skip/@include; "
               "__typename Literal; scalar image table; validation mode; a selected field is typed from its own schema definition (`__typename` fallback String!, unknown field rejected).",
@@ -48,7 +48,7 @@ PROPS = {
               "post-order of the fragment DFS; @mixin bases paired with imports.",
               "isinstance/MRO facts of imported classes; model_validate on sub-payloads"),
     "C09": _p("Clause decided: every producer of used enums is consumed before enums are pruned; typestate of the input generator; "
-              "input dependency closure is complete; filters only select; accessors return the accumulator they are named after and aggregating generators feed theirs from every sub-generator.",
+              "input dependency closure is complete; filters only select; accessors return the accumulator they are named after and aggregating generators feed theirs from every sub-generator; the names a module exports are those of exactly the classes it writes.",
               "behavioural identity of pruned and unpruned packages"),
     "C10": _p("Clause decided (sufficient condition): no unordered source (set iteration, directory listing) reaches emitted order except through "
               "an order-normalising sink; no ambient input (time, random, env) reaches emitted text; target directory is write-only and created only when missing.",
@@ -57,7 +57,7 @@ PROPS = {
               "upload extraction paths; no shared mutable state on the client; UNSET filter / dump flags.",
               "bytes on the wire produced by httpx, httpx internals, interleavings inside httpx"),
     "C12": _p("Clause decided: precedence of the response classification is a CFG property of get_data (status < decode < shape < errors < data), "
-              "closed outcome set, error attribute mapping, generated method chain execute -> get_data -> model_validate (emitted-code templates of the three method flavours); add_method routing.",
+              "closed outcome set, error attribute mapping, generated method chain execute -> get_data -> model_validate (emitted-code templates of the three method flavours); add_method routing; each operation gets the method flavour of the configured client.",
               "exceptions raised from inside library calls"),
     "C13": _p("Clause decided: handshake order (init < ack < subscribe < loop) as a dominance chain; connect keyword arguments exist in the installed websockets; "
               "dispatch exhaustive over the message-type enum with the required effect per branch; frame loop yields handler results; payload shapes; OTel twin equality.",
@@ -69,7 +69,7 @@ PROPS = {
               "ShorterResults unwraps the same value (and exactly the Annotated[T, meta] wrapper); ExtractOperations strings; ImportFrom level consistency; hook firing order vs. plugin state; plugin manager threaded to every generator; decision tables of the ShorterResults and ClientForwardRefs rewriters (when a method is rewritten, which imports move where).",
               "differential behaviour plugged vs. unplugged for all inputs"),
     "C16": _p("Clause decided: emitted constructor keyword coverage against graphql-core's to_kwargs; attribute pass-through; named-type kind exhaustiveness; "
-              "lazy references inside the type map; variable names threaded unchanged through every generator; SDL target prints the validated schema; explicit UTF-8 for targets and inputs; entry-point routing; settings handed over to the generators.",
+              "lazy references inside the type map; variable names threaded unchanged through every generator; SDL target prints the validated schema; explicit UTF-8 for targets and inputs; entry-point routing; settings handed over to the generators; the target format is decided from the last suffix, the part the validator checked.",
               "equality of the schema obtained by executing the generated module; fidelity of repr-embedded literals"),
     "C17": _p("Clause decided: every name/path setting is validated; identifier predicate rejects keywords; validation not made vacuous by assume_valid; "
               "validate-before-write dominance in main; typed errors (section lookup table, message carries every validation error); configuration not mutated; full operation validation.",
